@@ -716,6 +716,17 @@ func exhaustive(c *core.Case, r *rand.Rand, list []consensus.WALMessage, tag str
 	defer fl.cleanup()
 	run.Count("rotations", fl.rotations)
 	run.Count("restarts", fl.restarts)
+	if !cfg.Timed && r.Intn(2) == 0 {
+		// a validator that has been running for a long time: old files were pruned (the group's total size limit),
+		// the indices of the remaining ones are high and straddle a power of ten (file names are "%03d"-formatted)
+		if hi, err := shiftIndices(fl.path, r); err != nil {
+			run.Inconclusive("renaming rotated files: " + err.Error())
+			return
+		} else if hi > 0 {
+			run.Count("layouts_with_high_file_indices", 1)
+			run.Max("max_file_index", int64(hi))
+		}
+	}
 	llm, files := layoutModel(c, fl, "after stop")
 	if llm == nil {
 		return
@@ -819,6 +830,16 @@ func largeLog(c *core.Case) {
 	if cfg.Timed {
 		run.Count("logs_rotated_by_ticker", 1)
 	}
+	if !cfg.Timed && r.Intn(2) == 0 {
+		// as in the small logs: high file indices straddling a power of ten
+		if hi, err := shiftIndices(fl.path, r); err != nil {
+			run.Inconclusive("renaming rotated files: " + err.Error())
+			return
+		} else if hi > 0 {
+			run.Count("layouts_with_high_file_indices", 1)
+			run.Max("max_file_index", int64(hi))
+		}
+	}
 	llm, files := layoutModel(c, fl, "after stop")
 	if llm == nil {
 		return
@@ -894,6 +915,7 @@ func Main() {
 		r.Exhaustive(complete)
 		r.Floor("exh_logs_done", int64(nSmall))
 		r.Floor("rotations", 20)
+		r.Floor("layouts_with_high_file_indices", 5)
 		r.Floor("restarts", 20)
 		r.Floor("search_found", 50)
 		r.Floor("search_not_found", 20)
